@@ -40,6 +40,17 @@ def _line_basis(line, e):
     return np.array(s.B), np.array(s.A)
 
 
+def _small_det_regular(M):
+    """Mechanism feature of finding F34: a regular matrix (relative to its size) whose determinant is below the absolute tolerance 1e-8."""
+    try:
+        Ms = np.asarray(M, dtype=complex).reshape((-1,) + np.shape(M)[-2:])
+        dets = np.abs(np.linalg.det(Ms))
+        scl = np.abs(Ms).max(axis=(-2, -1)) ** Ms.shape[-1]
+        return bool(np.any((dets <= 1.5e-8) & (dets > 1e-12 * scl)))
+    except Exception:
+        return None
+
+
 def post_intersect(ctx, call):
     from geometer.curve import QuadricTensor
     from geometer.point import LineTensor
@@ -64,6 +75,14 @@ def post_intersect(ctx, call):
     except ValueError:
         return
     feat = {"cls": type(self).__name__, "dim": dim, "coll": bool(cshape)}
+    # mechanism feature of finding F34: a regular quadric whose determinant is below the library's absolute tolerance 1e-8
+    try:
+        Ms = np.asarray(self.array, dtype=complex).reshape((-1,) + self.shape[-2:])
+        dets = np.abs(np.linalg.det(Ms))
+        scl = np.abs(Ms).max(axis=(-2, -1)) ** self.shape[-1]
+        feat["small_det_regular"] = bool(np.any((dets <= 1.5e-8) & (dets > 1e-12 * scl)))
+    except Exception:
+        feat["small_det_regular"] = None
     if call.exc is not None:
         # a line contained in the quadric has infinitely many common points: not judged
         for pos in R.positions(tuple(cshape), 12):
@@ -202,7 +221,7 @@ def post_conic_tangent(ctx, call):
                 ok, why = False, f"a returned line is not tangent (discriminant {_disc_on_line(M, h):.3g})"
         if ok and X.proj_residual(res[0].array, res[1].array) < 1e-7:
             ok, why = False, "the two tangents coincide"
-        ctx.judge("tangent", ok, [M, x], what=f"Conic.tangent from an outside point: {why}", op="Conic.tangent", nontrivial=True)
+        ctx.judge("tangent", ok, [M, x], what=f"Conic.tangent from an outside point: {why}", op="Conic.tangent", nontrivial=True, feat={"small_det_regular": _small_det_regular(M)})
 
 
 def post_is_tangent(ctx, call):
@@ -301,6 +320,16 @@ def post_dual(ctx, call):
                       feat={"cls": type(self).__name__}, nontrivial=True)
         except Exception as e:
             ctx.judge("dual", False, [self], what=f"dual.dual raised {type(e).__name__}", op="dual.dual", feat={"cls": type(self).__name__})
+
+
+def f34_small_regular_quadric(rec, feat):
+    """QuadricTensor.is_degenerate compares the determinant with the absolute tolerance 1e-8, whatever the magnitude of the matrix: a
+    small regular quadric (the circle of radius 0.1 about the origin has the matrix diag(1e-2, 1e-2, -1e-4), determinant -1e-8) is
+    taken for a pair of lines and intersect() splits it into garbage components."""
+    return rec["monitor"] in ("intersect", "tangent") and feat.get("small_det_regular") is True
+
+
+CLASSIFIERS = {"f34_small_regular_quadric": f34_small_regular_quadric}
 
 
 def install(ctx):
@@ -516,6 +545,10 @@ def g_special(ctx, rng, i):
     if kind == 0:
         c = gen.coords(rng, (2,), 5, "int").astype(float)
         r = float(gen.pick(rng, [1, 2, 5, 13, 2.5]))
+        if (i // 4) % 3 == 2:
+            # small circles, also about the origin (matrix entries r^2, r^2, r^4 ...): ordinary objects, not degenerate ones
+            r = float(gen.pick(rng, [0.5, 0.25, 0.125, 0.0625]))
+            c = c * float(gen.pick(rng, [0, 0, 1]))
         Q = g.Circle(g.Point(*c), r)
         ts = rng.choice([0.0, 0.5, 1.0, 2.0, -1.0, -3.0, 1.5], size=2, replace=False)
         P = [np.array([c[0] + r * (1 - t * t) / (1 + t * t), c[1] + r * 2 * t / (1 + t * t), 1.0]) for t in ts]
